@@ -60,3 +60,286 @@ def raw_name(labels):
 def rand_name(rng, exotic=0.1):
     """raw wire name without the terminating zero (Go's dnsmsg.Name)"""
     return raw_name(rand_labels(rng, exotic=exotic))
+
+
+# ---------------------------------------------------------------- DNS message generator
+import struct
+
+T_A, T_NS, T_CNAME, T_SOA, T_PTR, T_MX, T_TXT, T_AAAA, T_SRV, T_OPT = 1, 2, 5, 6, 12, 15, 16, 28, 33, 41
+RR_TYPES = [T_A, T_AAAA, T_NS, T_CNAME, T_PTR, T_MX, T_SOA, T_SRV, T_TXT, T_OPT, 99, 65280]
+
+
+class Enc:
+    """wire writer with optional (incoming) compression pointers"""
+
+    def __init__(self, rng, ptr_prob=0.0):
+        self.b = bytearray()
+        self.rng = rng
+        self.ptr_prob = ptr_prob
+        self.offs = {}
+
+    def name(self, labels, allow_ptr=True):
+        for i in range(len(labels)):
+            suf = tuple(labels[i:])
+            if allow_ptr and suf in self.offs and self.rng.random() < self.ptr_prob:
+                p = self.offs[suf]
+                self.b += bytes([0xC0 | (p >> 8), p & 0xFF])
+                return
+            if len(self.b) < 0x4000 and suf not in self.offs:
+                self.offs[suf] = len(self.b)
+            self.b += bytes([len(labels[i])]) + labels[i]
+        self.b.append(0)
+
+    def u16(self, v):
+        self.b += struct.pack(">H", v & 0xFFFF)
+
+    def u32(self, v):
+        self.b += struct.pack(">I", v & 0xFFFFFFFF)
+
+
+class NamePool:
+    def __init__(self, rng, exotic=0.08):
+        self.rng = rng
+        base = [rand_labels(rng, exotic=exotic) for _ in range(3)]
+        self.names = list(base)
+        for _ in range(4):
+            b = rng.choice(base)
+            # children / parents / siblings so that suffixes are shared
+            k = rng.random()
+            if k < 0.5:
+                n = [rand_label(rng, exotic=exotic)] + b
+            elif k < 0.7 and len(b) > 1:
+                n = b[1:]
+            else:
+                n = [rand_label(rng, exotic=exotic)] + b[-1:]
+            if len(raw_name(n)) <= 253:
+                self.names.append(n)
+
+    def pick(self):
+        if self.rng.random() < 0.1:
+            n = rand_labels(self.rng)
+            return n
+        return self.rng.choice(self.names)
+
+
+def rand_ttl(rng):
+    return rng.choice([0, 1, 5, 30, 60, 300, 3600, 86400, 2 ** 31 - 1, 2 ** 31, 2 ** 32 - 1, rng.randrange(2 ** 32)])
+
+
+def put_rr(e, rng, pool, typ=None, rdlen_lie=0, big=False):
+    if typ is None:
+        typ = rng.choice(RR_TYPES)
+    owner = [] if typ == T_OPT and rng.random() < 0.9 else pool.pick()
+    e.name(owner)
+    e.u16(typ)
+    e.u16(rng.choice([1, 1, 1, 3, 255, 1232, 4096, rng.randrange(65536)]) if typ == T_OPT or rng.random() < 0.1 else 1)
+    e.u32(rand_ttl(rng))
+    lenpos = len(e.b)
+    e.u16(0)
+    start = len(e.b)
+    if typ == T_A:
+        e.b += bytes(rng.randrange(256) for _ in range(4))
+    elif typ == T_AAAA:
+        e.b += bytes(rng.randrange(256) for _ in range(16))
+    elif typ in (T_NS, T_CNAME, T_PTR):
+        e.name(pool.pick())
+    elif typ == T_MX:
+        e.u16(rng.randrange(65536))
+        e.name(pool.pick())
+    elif typ == T_SOA:
+        e.name(pool.pick())
+        e.name(pool.pick())
+        for _ in range(5):
+            e.u32(rng.choice([0, 1, 3600, 2 ** 32 - 1, rng.randrange(2 ** 32)]))
+    elif typ == T_SRV:
+        e.u16(rng.randrange(65536))
+        e.u16(rng.randrange(65536))
+        e.u16(rng.randrange(65536))
+        e.name(pool.pick(), allow_ptr=rng.random() < 0.5)
+    elif typ == T_OPT:
+        nopt = rng.choice([0, 0, 1, 2])
+        for _ in range(nopt):
+            code = rng.choice([8, 10, 12, 3, rng.randrange(65536)])
+            ln = rng.choice([0, 4, 7, 8, 11, 24])
+            e.u16(code)
+            e.u16(ln)
+            e.b += bytes(rng.randrange(256) for _ in range(ln))
+    else:
+        n = rng.choice([0, 0, 1, 3, 17, 255, 256, 300]) if not big else rng.choice([1000, 4000, 20000])
+        e.b += bytes(rng.randrange(256) for _ in range(n))
+    l = len(e.b) - start + rdlen_lie
+    struct.pack_into(">H", e.b, lenpos, max(0, l) & 0xFFFF)
+
+
+def gen_msg(rng, ptr_prob=None, max_rr=6, counts_lie=False, rdlen_lie=False, big=False, response=None,
+            one_question=False, opt=None, types=None):
+    """a structured, mostly valid message; returns bytes"""
+    if ptr_prob is None:
+        ptr_prob = rng.choice([0.0, 0.0, 0.5, 0.9])
+    e = Enc(rng, ptr_prob)
+    pool = NamePool(rng)
+    ident = rng.randrange(65536)
+    bits = 0
+    resp = rng.random() < 0.7 if response is None else response
+    if resp:
+        bits |= 0x8000
+    r = rng.random()
+    if r < 0.85:
+        opcode = 0
+    else:
+        opcode = rng.randrange(16)
+    bits |= opcode << 11
+    for bit in (0x400, 0x200, 0x100, 0x80, 0x40, 0x20, 0x10):
+        p = {0x100: 0.8, 0x80: 0.6, 0x200: 0.08, 0x40: 0.05}.get(bit, 0.2)
+        if rng.random() < p:
+            bits |= bit
+    bits |= rng.choice([0, 0, 0, 0, 2, 3, 3, 5, rng.randrange(16)])
+    nq = 1 if one_question else rng.choice([1, 1, 1, 1, 1, 1, 0, 2, 3])
+    secs = [rng.choice([0, 1, 1, 2, 3, max_rr]), rng.choice([0, 0, 1, 2]), rng.choice([0, 0, 1, 2])]
+    e.u16(ident)
+    e.u16(bits)
+    e.u16(nq)
+    for s in secs:
+        e.u16(s)
+    for _ in range(nq):
+        e.name(pool.pick())
+        e.u16(rng.choice([1, 28, 15, 16, 255, rng.randrange(65536)]))
+        e.u16(rng.choice([1, 1, 1, 3, 255, rng.randrange(65536)]))
+    opt_placed = False
+    for si, s in enumerate(secs):
+        for k in range(s):
+            typ = None
+            if types:
+                typ = rng.choice(types)
+            if si == 2 and opt is True and not opt_placed and (k == s - 1 or rng.random() < 0.4):
+                typ = T_OPT
+                opt_placed = True
+            elif opt is False or (opt is True and (si != 2 or opt_placed)):
+                while typ is None or typ == T_OPT:
+                    typ = rng.choice(RR_TYPES)
+            put_rr(e, rng, pool, typ=typ, rdlen_lie=(rng.choice([-1, 1, 2]) if rdlen_lie and rng.random() < 0.5 else 0),
+                   big=big and rng.random() < 0.3)
+    b = bytearray(e.b)
+    if opt is True and not opt_placed:
+        # append an OPT record and bump ARCOUNT
+        e2 = Enc(rng, 0.0)
+        put_rr(e2, rng, pool, typ=T_OPT)
+        b += e2.b
+        struct.pack_into(">H", b, 10, secs[2] + 1)
+    if counts_lie:
+        pos = rng.choice([4, 6, 8, 10])
+        v = struct.unpack_from(">H", b, pos)[0]
+        struct.pack_into(">H", b, pos, max(0, v + rng.choice([-1, 1, 2, 200, 65535 - v])) & 0xFFFF)
+    if rng.random() < 0.05:
+        b += bytes(rng.randrange(256) for _ in range(rng.randint(1, 8)))  # trailing bytes
+    return bytes(b)
+
+
+def hdr(ident=1, bits=0x0100, qd=0, an=0, ns=0, ar=0):
+    return struct.pack(">HHHHHH", ident, bits, qd, an, ns, ar)
+
+
+def boundary_msgs(rng):
+    """hand-built boundary catalogue for the decoder (C01) — returns list of (tag, bytes)"""
+    out = []
+    q_tail = struct.pack(">HH", 1, 1)
+    # label 63 / 64
+    for n in (62, 63, 64, 65, 127, 128, 191, 192):
+        out.append(("label%d" % n, hdr(qd=1) + bytes([n]) + b"a" * (n & 0x3F if n >= 64 else n) + b"\0" + q_tail))
+    # name 253/254/255/256 octets (raw length incl. length octets, without terminator)
+    for total in (250, 252, 253, 254, 255, 256, 257):
+        labels = []
+        left = total
+        while left > 0:
+            l = min(63, left - 1)
+            if l <= 0:
+                break
+            labels.append(b"x" * l)
+            left -= l + 1
+        out.append(("name%d" % total, hdr(qd=1) + raw_name(labels) + b"\0" + q_tail))
+    # pointer chains of k hops ending in a real name at offset 12
+    for hops in (1, 2, 9, 10, 11, 12):
+        b = bytearray(hdr(qd=1, an=1))
+        b += b"\x03abc\x00" + q_tail            # question at 12
+        # chain: pointer k at position p_k -> p_{k-1} ... -> 12
+        chain_start = len(b)
+        # answer owner = pointer to the end of a pointer chain stored in the RDATA of a preceding TXT-like blob
+        # simpler: put the chain inside the owner-name region of extra raw records in "additional" data after the message
+        tail = bytearray()
+        base = None
+        # the chain lives after the answer record; compute answer record size first
+        ans_owner_ptr_pos = len(b)
+        b += b"\xC0\x00"                        # placeholder pointer
+        b += struct.pack(">HHIH", 1, 1, 60, 4) + b"\x01\x02\x03\x04"
+        pos = len(b)
+        target = 12
+        for h in range(hops - 1):
+            b += bytes([0xC0 | (target >> 8), target & 0xFF])
+            target = pos
+            pos += 2
+        b[ans_owner_ptr_pos] = 0xC0 | (target >> 8)
+        b[ans_owner_ptr_pos + 1] = target & 0xFF
+        out.append(("hops%d" % hops, bytes(b)))
+    # self pointer, forward pointer, pointer to len, pointer at last octet
+    out.append(("selfptr", hdr(qd=1) + b"\xC0\x0C" + q_tail))
+    out.append(("ptrloop2", hdr(qd=1) + b"\xC0\x0E\xC0\x0C" + q_tail))
+    out.append(("fwdptr", hdr(qd=1) + b"\xC0\x12" + q_tail + b"\x01a\x00"))
+    out.append(("ptr_to_len", hdr(qd=1) + b"\xC0\x12" + q_tail))
+    out.append(("ptr_last_octet", hdr(qd=1) + b"\x01a\xC0"))
+    out.append(("ptr_beyond", hdr(qd=1) + b"\xFF\xFF" + q_tail))
+    out.append(("label_then_loop", hdr(qd=1) + b"\x01a\xC0\x0C" + q_tail))
+    for pre in (0x40, 0x80, 0x7F, 0xBF):
+        out.append(("reserved%02x" % pre, hdr(qd=1) + bytes([pre]) + b"a" * 70 + b"\0" + q_tail))
+    # RDLENGTH boundaries for A / AAAA
+    for typ, good in ((1, 4), (28, 16)):
+        for ln in (0, good - 1, good, good + 1):
+            body = bytes(range(ln))
+            out.append(("rdlen_t%d_%d" % (typ, ln), hdr(qd=0, an=1) + b"\x01a\x00" + struct.pack(">HHIH", typ, 1, 5, ln) + body))
+            out.append(("rdlen_t%d_%d_short" % (typ, ln), hdr(qd=0, an=1) + b"\x01a\x00" + struct.pack(">HHIH", typ, 1, 5, ln) + body[:-1]))
+    # typed rdata whose RDLENGTH != consumed
+    for ln in (3, 4, 5, 6):
+        out.append(("ns_rdlen%d" % ln, hdr(an=1) + b"\x01a\x00" + struct.pack(">HHIH", 2, 1, 5, ln) + b"\x02bc\x00"))
+    out.append(("mx_ok", hdr(an=1) + b"\x01a\x00" + struct.pack(">HHIH", 15, 1, 5, 6) + b"\x00\x0a\x02bc\x00"))
+    out.append(("mx_short", hdr(an=1) + b"\x01a\x00" + struct.pack(">HHIH", 15, 1, 5, 1) + b"\x00"))
+    out.append(("srv_ok", hdr(an=1) + b"\x01a\x00" + struct.pack(">HHIH", 33, 1, 5, 10) + b"\0\1\0\2\0\3\x02bc\x00"))
+    out.append(("soa_ok", hdr(an=1) + b"\x01a\x00" + struct.pack(">HHIH", 6, 1, 5, 26) + b"\x01n\x00\x01m\x00" + b"\0\0\0\1" * 5))
+    out.append(("soa_short", hdr(an=1) + b"\x01a\x00" + struct.pack(">HHIH", 6, 1, 5, 26) + b"\x01n\x00\x01m\x00" + b"\0\0\0\1" * 4))
+    out.append(("raw_empty", hdr(an=1) + b"\x01a\x00" + struct.pack(">HHIH", 16, 1, 5, 0)))
+    out.append(("raw_len_beyond", hdr(an=1) + b"\x01a\x00" + struct.pack(">HHIH", 16, 1, 5, 65535) + b"abc"))
+    out.append(("opt", hdr(ar=1) + b"\x00" + struct.pack(">HHIH", 41, 1232, 0x00008000, 0)))
+    # truncated at each header field
+    full = hdr(qd=1, an=1) + b"\x03abc\x00" + q_tail + b"\xC0\x0C" + struct.pack(">HHIH", 1, 1, 60, 4) + b"\1\2\3\4"
+    for i in range(len(full) + 1):
+        out.append(("trunc%d" % i, full[:i]))
+    # counts > records
+    out.append(("counts_gt", hdr(qd=2, an=3) + b"\x03abc\x00" + q_tail))
+    out.append(("counts_max", hdr(qd=65535, an=65535, ns=65535, ar=65535)))
+    out.append(("empty", b""))
+    out.append(("hdr_only", hdr()))
+    return out
+
+
+def deep_chain_msg(n=12):
+    """n owner names each extending the previous by one label (uncompressed): compressing it needs n-1 hops"""
+    b = bytearray(hdr(bits=0x8180, an=n))
+    labels = []
+    for i in range(n):
+        labels = [bytes([97 + i])] + labels
+        b += raw_name(labels) + b"\0" + struct.pack(">HHIH", 1, 1, 60, 4) + bytes([10, 0, 0, i])
+    return bytes(b)
+
+
+def mutate(rng, b):
+    b = bytearray(b)
+    r = rng.random()
+    if r < 0.3 and len(b) > 0:
+        return bytes(b[:rng.randrange(len(b) + 1)])
+    if r < 0.8 and len(b) > 0:
+        for _ in range(rng.choice([1, 1, 2, 4])):
+            i = rng.randrange(len(b))
+            b[i] = rng.choice([0, 0xC0, 0xFF, 0x3F, 0x40, b[i] ^ (1 << rng.randrange(8)), rng.randrange(256)])
+        return bytes(b)
+    if r < 0.9:
+        i = rng.randrange(len(b) + 1)
+        return bytes(b[:i]) + bytes(rng.randrange(256) for _ in range(rng.randint(1, 6))) + bytes(b[i:])
+    return bytes(rng.randrange(256) for _ in range(rng.choice([0, 1, 11, 12, 13, 40, 200])))
